@@ -76,6 +76,37 @@ def unit(job, variant, pi, seed, length, per_key, only=None):
                                    "method": call["method"], "kind": problem["kind"], "job": job,
                                    "payload": None if call["is_view"] else complib.dump_arg(args[0]),
                                    "state": complib.dump_arg(args[-1]), "detail": problem})
+    # order independence across interpreters: a sample of the reducer calls (one or two per class and method), each
+    # followed by its twin (same name, description differing in one number), in two new interpreters in opposite orders
+    out["order_items"] = 0
+    if only is None and pi < (1 if per_key <= 30 else 3):
+        picked, per = [], {}
+        for call in calls:
+            key = (type(call["owner"]).__name__, call["method"])
+            if call["is_view"] or per.get(key, 0) >= 2:
+                continue
+            it = complib.portable_call(call)
+            if it is None:
+                continue
+            per[key] = per.get(key, 0) + 1
+            picked.append(it)
+            tw = complib.twin_of(it)
+            if tw is not None:
+                picked.append(tw)
+            if len(picked) >= 160:
+                break
+        out["order_items"] = len(picked)
+        for d in complib.order_dependence(picked)[:2]:
+            if "error" in d:
+                out.setdefault("broken", []).append({"kind": "harness", "part": "C08 order independence", **d})
+                break
+            it = picked[d["index"]]
+            out["failing"].append({"component_class": it["cls"][1], "component": it["owner"].get("name"),
+                                   "method": it["method"], "kind": "answer-depends-on-the-calls-made-before-it-in-the-process",
+                                   "job": job, "payload": it["args"][0].get("json") if len(it["args"]) > 1 else None,
+                                   "state": it["args"][-1].get("dump"), "component_description": it["owner"],
+                                   "detail": {k: d[k] for k in ("in_list_order", "in_reverse_order")},
+                                   "calls_in_the_list": [[x["cls"][1], x["owner"].get("name"), x["method"]] for x in picked][:40]})
     out["sample"] = {"job": job, "calls": list(out["by_class"].items())[:6]}
     return out
 
@@ -107,7 +138,7 @@ def main(ck: Check):
     per_key = 30 if quick else 1500
     rng = ck.rng
     work = [(job, v, pi, ck.seed, rng.randint(*length), per_key) for job in JOBS for v in variants for pi in range(plans_per)]
-    tot = {"calls": 0, "views": 0, "reducers": 0}
+    tot = {"calls": 0, "views": 0, "reducers": 0, "order_items": 0}
     by_class: dict[str, int] = {}
     samples = []
     observed: dict[str, dict] = {}
@@ -126,6 +157,7 @@ def main(ck: Check):
                 by_class[k] = by_class.get(k, 0) + v
             for f in out["failing"]:
                 ck.add_failing(f)
+            ck.broken.extend(out.get("broken", []))
             merge_observed(observed, out["observed"])
             for mm in out["mismatches"]:
                 if mm not in mismatches and len(mismatches) < 10:
@@ -226,7 +258,10 @@ def main(ck: Check):
                 f"(distinct by (class, method, payload, state dump), at most {per_key} per (class, method)); each is replayed as a "
                 "direct call component.<method>(payload, state) twice on the SAME argument objects and once on deep copies: the "
                 "dump of every argument must be unchanged after each call, the component itself unchanged, and the three results "
-                "equal. Each call is also run with every pydantic attribute assignment traced (transient writes included): no traced "
+                "equal. A sample of the reducer calls (up to two per class and method), each followed by its twin -- a component of the "
+                "same name whose description differs in one number --, is replayed in two NEW interpreters in opposite orders "
+                "(components with equal descriptions share one object there): every answer must be the same in both. "
+                "Each call is also run with every pydantic attribute assignment traced (transient writes included): no traced "
                 "write may go to an object that existed before the call, and every traced attribute must be a store of the method's "
                 "effect program. Each call is also compared with the effect program generated from the method: every (entity, field) the "
                 "call changed must be a store of the program, a result the model derives fresh must share no mutable object "
